@@ -92,6 +92,57 @@ Ref(e) == CASE e.op = "lincomb"   -> LinComb(A(e), Amp(e, 1), B(e), Amp(e, 2))
             [] e.op = "ncon"      -> Ncon(NTs(e), e.inds, e.swaps, Tr.ferm)
             [] e.op = "swap_gate" -> SwapGate(A(e), SwapPairs(A(e), e), Tr.ferm)
 
+(* ---- MPS / MPO algebra (C06): registers hold alpha(to_tensor()) of real MPS / MPO objects; every operation of the MPS algebra is defined on the  ---- *)
+(* ---- dense representative with the tensor semantics above.  An MPO on nn sites has logical legs ket_1, bra_1, ..., ket_N, bra_N.                 ---- *)
+Odd(nn) == [k \in 1..nn |-> 2 * k - 1]
+Even(nn) == [k \in 1..nn |-> 2 * k]
+Seq1(nn) == [k \in 1..nn |-> k]
+InterleaveP(nn) == [k \in 1..(2 * nn) |-> IF k % 2 = 1 THEN (k + 1) \div 2 ELSE nn + k \div 2]
+SwapPairsPerm(nn) == [k \in 1..(2 * nn) |-> IF k % 2 = 1 THEN k + 1 ELSE k - 1]
+RevPerm(nn, ph) == IF ph = 1 THEN [k \in 1..nn |-> nn + 1 - k] ELSE [k \in 1..(2 * nn) |-> IF k % 2 = 1 THEN 2 * nn - k ELSE 2 * nn + 2 - k]
+RECURSIVE LinFold(_, _, _)
+LinFold(rs, amps, k) == IF k = 1 THEN Scale(reg[rs[1]], Z(amps[1])) ELSE LinComb(LinFold(rs, amps, k - 1), <<1, 0>>, reg[rs[k]], Z(amps[k]))
+MApply(O, x, nn) == Dot(O, x, Even(nn), Seq1(nn))
+MCompose(P, Q, nn) == Transpose(Dot(P, Q, Even(nn), Odd(nn)), InterleaveP(nn))
+RECURSIVE OuterFold(_, _)
+OuterFold(rs, k) == IF k = 1 THEN reg[rs[1]] ELSE Dot(OuterFold(rs, k - 1), reg[rs[k]], <<>>, <<>>)
+RECURSIVE SumOps(_, _, _, _)
+SumOps(rs, amps, x, nn) == LinFold(rs, amps, Len(rs))          \* sum of MPOs with amplitudes, then applied
+IsMps(e) == e.op \in {"m_lin", "m_scale", "m_apply", "m_compose", "m_conj", "m_transpose", "m_hc", "m_reverse", "m_outer", "m_div"}
+PreM(e) == CASE e.op = "m_lin" -> \A k \in 2..Len(e.rs) : SameShape(reg[e.rs[1]], reg[e.rs[k]])
+             [] e.op = "m_apply" -> PreDot(A(e), B(e), Even(e.N), Seq1(e.N))
+             [] e.op = "m_compose" -> PreDot(A(e), B(e), Even(e.N), Odd(e.N))
+             [] OTHER -> TRUE
+RefM(e) == CASE e.op = "m_lin" -> LinFold(e.rs, e.amp, Len(e.rs))
+             [] e.op = "m_scale" -> Scale(A(e), Amp(e, 1))
+             [] e.op = "m_apply" -> MApply(A(e), B(e), e.N)
+             [] e.op = "m_compose" -> MCompose(A(e), B(e), e.N)
+             [] e.op = "m_conj" -> Conj(A(e))
+             [] e.op = "m_transpose" -> IF e.ph = 2 THEN Transpose(A(e), SwapPairsPerm(e.N)) ELSE A(e)
+             [] e.op = "m_hc" -> IF e.ph = 2 THEN Conj(Transpose(A(e), SwapPairsPerm(e.N))) ELSE Conj(A(e))
+             [] e.op = "m_reverse" -> Transpose(A(e), RevPerm(e.N, e.ph))
+             [] e.op = "m_outer" -> OuterFold(e.rs, Len(e.rs))
+(* division by a scalar: the result r is the tensor with c * r = operand (exact in the Gaussian integers) *)
+DivOK(e) == Scale(N(e.obs), Amp(e, 1)) = [A(e) EXCEPT !.legs = N(e.obs).legs] /\ N(e.obs).s = A(e).s /\ N(e.obs).n = A(e).n
+(* the separate norm factor: multiplication by c multiplies it by |c| (c = 0 sets it to 0); Gaussian-integer c with integer modulus *)
+AbsG(z) == CHOOSE m \in 0..9 : m * m = z[1] * z[1] + z[2] * z[2]
+FactorOK(e) == CASE e.op = "m_scale" -> e.factor[1] * e.factor0[2] = AbsG(Amp(e, 1)) * e.factor0[1] * e.factor[2]
+                 [] e.op = "m_div" -> e.factor[1] * e.factor0[2] * AbsG(Amp(e, 1)) = e.factor0[1] * e.factor[2]
+                 [] OTHER -> TRUE
+MpsOK(e) == IF e.op = "m_div" THEN e.out = "ok" /\ DivOK(e) /\ FactorOK(e)
+            ELSE IF PreM(e) THEN /\ e.out = "ok" /\ FactorOK(e)
+                                 (* the zero state has no definite charge (it is represented with empty legs): only "no element" is required of it *)
+                                 /\ \/ (RefM(e).ent = {} /\ N(e.obs).ent = {})
+                                    \/ (Conforms(N(e.obs), RefM(e)) /\ WellFormed(N(e.obs)))
+                 ELSE e.out = "YastnError"
+WhyMps(e) == IF e.op = "m_div" THEN <<"division: c * result differs from the operand, or factor bookkeeping", e.factor0, e.factor>>
+             ELSE IF ~PreM(e) THEN <<"must be rejected", e.out>> ELSE IF e.out # "ok" THEN <<"valid MPS operation failed", e.out>>
+             ELSE IF ~Conforms(N(e.obs), RefM(e)) THEN WhyNot(N(e.obs), RefM(e)) ELSE <<"factor bookkeeping / well-formedness", e.factor0, e.factor>>
+(* numbers: overlap <a|b>, <a| sum_k amp_k O_k |b> *)
+IsMNum(e) == e.op \in {"m_overlap", "m_measure"}
+RefMNum(e) == CASE e.op = "m_overlap" -> Vdot(Conj(A(e)), B(e))
+                [] e.op = "m_measure" -> Vdot(Conj(A(e)), MApply(LinFold(e.rs, e.amp, Len(e.rs)), B(e), e.N))
+
 (* inputs on which the outcome is unspecified (6.4 of DESIGN.md): a charge sector with two different dimensions in the operands *)
 Unspec(e) == CASE e.op = "lincomb" -> SameShape(A(e), B(e)) /\ ~DimsOKSame(A(e), B(e))
                [] e.op = "add3" -> SameShape(A(e), B(e)) /\ SameShape(A(e), reg[e.c]) /\ ~(DimsOKSame(A(e), B(e)) /\ DimsOKSame(A(e), reg[e.c]) /\ DimsOKSame(B(e), reg[e.c]))
@@ -159,6 +210,8 @@ ResOK(e) == LET o == N(e.obs) IN e.obs.views = "same" /\ Conforms(o, Ref(e)) /\ 
 Ok(e) == IF IsInit(e) THEN WellFormed(N(e.obs)) /\ RawOK(e.obs)
          ELSE IF Unspec(e) THEN TRUE
          ELSE IF IsNum(e) THEN (IF PreNum(e) THEN e.out = "ok" /\ Z(e.val) = RefNum(e) ELSE e.out = "YastnError")
+         ELSE IF IsMps(e) THEN MpsOK(e)
+         ELSE IF IsMNum(e) THEN e.out = "ok" /\ Z(e.val) = RefMNum(e)
          ELSE IF IsFact(e) THEN (IF PreFactor(A(e), G1(e.la), G1(e.lb)) THEN FactOK(e) ELSE e.out = "YastnError")
          ELSE IF e.op = "ncon" THEN (IF Pre(e) THEN NconOK(e) ELSE \A k \in 1..Len(e.results) : e.results[k].out = "YastnError")
          ELSE IF Pre(e) THEN e.out = "ok" /\ ResOK(e)
@@ -166,6 +219,8 @@ Ok(e) == IF IsInit(e) THEN WellFormed(N(e.obs)) /\ RawOK(e.obs)
 Why(e) == IF IsInit(e) THEN <<"initial tensor not well-formed", WfLegs(N(e.obs)), WfGrp(N(e.obs)), WfEnt(N(e.obs)), WfDiag(N(e.obs)), e.obs.raw, e.obs.views>>
           ELSE IF IsNum(e) THEN (IF PreNum(e) THEN <<"number", e.out, IF e.out = "ok" THEN Z(e.val) ELSE CZ, "reference", RefNum(e)>>
                                  ELSE <<"must be rejected with YastnError, got", e.out>>)
+          ELSE IF IsMps(e) THEN WhyMps(e)
+          ELSE IF IsMNum(e) THEN <<"number", e.out, IF e.out = "ok" THEN Z(e.val) ELSE CZ, "reference", RefMNum(e)>>
           ELSE IF IsFact(e) THEN WhyFact(e)
           ELSE IF e.op = "ncon" THEN (IF ~Pre(e) THEN <<"ncon must be rejected">> ELSE
                  LET r == Ref(e)  k == CHOOSE k \in 1..Len(e.results) : ~(e.results[k].out = "ok" /\ e.results[k].obs.views = "same" /\ Conforms(N(e.results[k].obs), r)
@@ -178,7 +233,7 @@ Why(e) == IF IsInit(e) THEN <<"initial tensor not well-formed", WfLegs(N(e.obs))
           ELSE IF ~WellFormed(N(e.obs)) THEN <<"result not well-formed (C02)", WfLegs(N(e.obs)), WfGrp(N(e.obs)), WfEnt(N(e.obs)), WfDiag(N(e.obs))>>
           ELSE <<"raw block structure / is_consistent / views (C02, C01)", e.obs.raw, e.obs.views>>
 
-Appends(e) == (IsInit(e) \/ (~IsNum(e) /\ ~IsFact(e) /\ e.op # "ncon" /\ e.out = "ok"))
+Appends(e) == (IsInit(e) \/ (~IsNum(e) /\ ~IsMNum(e) /\ ~IsFact(e) /\ e.op # "ncon" /\ e.out = "ok"))
 Init == tid \in 1..Len(Traces) /\ l = 1 /\ reg = <<>>
 Step == /\ l \in 1..Len(Ev) /\ (Ok(Ev[l]) = TRUE) /\ l' = l + 1 /\ UNCHANGED tid
         /\ reg' = IF Appends(Ev[l]) THEN Append(reg, N(Ev[l].obs)) ELSE reg
